@@ -1,6 +1,7 @@
 /-
   C15 — Title comes from the page, is never invented, and is not repeated in content.
 -/
+import Distill.Gen.Tables
 import Distill.Props.RenderProps
 import Distill.Model.Title
 import Distill.Props.FiltersProps
@@ -125,6 +126,17 @@ heuristics add -/
 theorem title_block_labelled (normTitle blockNorm : String) (parts : List String) (h : blockNorm = normTitle) :
     (potentialTitles normTitle parts).contains blockNorm = true := by
   subst h; simp [potentialTitles]
+
+/-- `getDocumentTitle`, `ExtractTitle`, `ensureTitleInitialized` as they stand, and the five regular
+expressions `Model/Title.lean` spells out (`hasSepIn`, `removeFinalPart`, `removeFirstPart`, …) -/
+theorem title_heuristic_tie :
+    Gen.titleBodies = Gen.titleBodiesExpected ∧
+    Gen.modelledRegexps.lookup "internal/extractor.rxTitleSeparator" = some "(?i) [\\|\\-\\\\/>»] " ∧
+    Gen.modelledRegexps.lookup "internal/extractor.rxTitleHierarchySep" = some "(?i) [\\\\/>»] " ∧
+    Gen.modelledRegexps.lookup "internal/extractor.rxTitleRemoveFinalPart" = some "(?i)(.*)[\\|\\-\\\\/>»] .*" ∧
+    Gen.modelledRegexps.lookup "internal/extractor.rxTitleRemove1stPart" = some "(?i)[^\\|\\-\\\\/>»]*[\\|\\-\\\\/>»](.*)" ∧
+    Gen.modelledRegexps.lookup "internal/extractor.rxTitleAnySeparator" = some "(?i)[\\|\\-\\\\/>»]+" := by
+  refine ⟨rfl, ?_, ?_, ?_, ?_, ?_⟩ <;> decide +kernel
 
 /-! non-vacuity -/
 example : documentTitle { orig := "An ordinary page title".toList, h1 := none, headingMatch := false } =
